@@ -55,12 +55,19 @@ func VerifStub_blockrelay_UnmarshalJSON(data []byte) (blockrelay.ExecutionConfig
 }
 
 type c12Majordomo struct {
+	gate    chan struct{} // when set, Fetch waits for it to be closed
+	waiting bool
 	outcome int
 	calls   int
 }
 
 func (m *c12Majordomo) Fetch(_ context.Context, _ string) ([]byte, error) {
 	m.calls++
+	if m.gate != nil {
+		m.waiting = true
+		<-m.gate // the configuration source has not answered yet
+		m.waiting = false
+	}
 	if m.outcome == docFetchError {
 		return nil, errors.New("mock fetch failure")
 	}
@@ -190,4 +197,44 @@ func VerifC12_Live() {
 	vnd.Assert(left == 0 && done == 3, "C12.live.every-request-returns")
 	vnd.Assert(vnd.HeldLocks() == 0, "C12.live.no-lock-left-held")
 	vnd.Cover("C12.live.done")
+}
+
+
+// VerifC12_SlowSource: while a refresh is waiting for a configuration source
+// that has not answered, requests for proposer settings and auctions return,
+// using the last configuration obtained successfully; when the source answers
+// (with any outcome) the refresh returns and no lock is left held.
+func VerifC12_SlowSource() {
+	m := &c12Majordomo{outcome: vnd.Choose("fetch.outcome", nC12Outcomes), gate: make(chan struct{})}
+	a := &c12Accounts{}
+	b := &c12Bids{}
+	s := c12Service(m, a, b)
+	prev := c12Preload(s, 1)
+	fetched := false
+	go func() { s.fetchExecutionConfig(context.Background()); fetched = true }()
+	vnd.Quiesce()
+	vnd.Assert(m.waiting && !fetched, "C12.slow.refresh-is-waiting-for-the-source")
+	// requests made meanwhile (each in its own goroutine so that one that blocks is seen)
+	var pc *beaconblockproposer.ProposerConfig
+	lookedUp, auctioned := false, false
+	go func() {
+		pc, _ = s.ProposerConfig(context.Background(), nil, phase0.BLSPubKey{7})
+		lookedUp = true
+	}()
+	go func() {
+		_, _ = s.auctionBlock(context.Background(), 5, phase0.Hash32{}, phase0.BLSPubKey{7}, nil)
+		auctioned = true
+	}()
+	vnd.Quiesce()
+	vnd.Assert(lookedUp, "C12.slow.settings-request-returns-while-the-source-is-silent")
+	vnd.Assert(auctioned, "C12.slow.auction-returns-while-the-source-is-silent")
+	if lookedUp {
+		want, _ := prev.ProposerConfig(context.Background(), nil, phase0.BLSPubKey{7}, c12Fallback, 30000000)
+		vnd.Assert(pc != nil && want != nil && pc.FeeRecipient == want.FeeRecipient, "C12.slow.last-good-configuration-used-meanwhile")
+	}
+	close(m.gate)
+	left := vnd.Quiesce()
+	vnd.Assert(fetched && left == 0, "C12.slow.refresh-returns-once-the-source-answers")
+	vnd.Assert(vnd.HeldLocks() == 0, "C12.slow.no-lock-left-held")
+	vnd.Cover("C12.slow.done")
 }
